@@ -151,6 +151,9 @@ def _eager_summary(fn: Any, xs: list, params: dict | None) -> dict:
         return {"exc": type(exc).__name__, "msg": str(exc)[:120]}
 
 
+_DIGEST_MISMATCH = [0]  # outputs whose bits differ from the control interpreter's (whatever the verdict)
+
+
 def _eager_equal(a: dict, b: dict) -> tuple[bool, str]:
     if ("exc" in a) != ("exc" in b):
         return False, f"expected {a.get('exc') or 'values'}, got {b.get('exc') + ':' + b.get('msg', '') if 'exc' in b else 'values'}"
@@ -163,6 +166,7 @@ def _eager_equal(a: dict, b: dict) -> tuple[bool, str]:
             return False, f"out{i} {x['dtype']}{x['shape']} vs {y['dtype']}{y['shape']}"
         if x["digest"] == y["digest"]:
             continue
+        _DIGEST_MISMATCH[0] += 1
         for key in ("sum", "absmax"):
             u, v = x[key], y[key]
             if u != u and v != v:
@@ -570,7 +574,7 @@ def run(plan: dict) -> dict:
                 if k % stride != offset:
                     continue
                 for e in op.get("excs", ["SimFault", "SimInterrupt"]):
-                    subs.append({"op": "convert", "pid": pid, "over": op.get("over", {}), "fault": {"k": k, "exc": e}})
+                    subs.append({"op": "convert", "pid": pid, "over": op.get("over", {}), "fault": {"k": k, "exc": e}, "collect_after_raise": False})
             if len(samples) < 2 and subs:
                 samples.append(subs[len(subs) // 3])
             if _fresh(viol, plan):
@@ -586,6 +590,15 @@ def run(plan: dict) -> dict:
                     unfinished = subs[s_i + 1 :] + ops[i + 1 :]
                     stop = True
                     break
+                if (s_i + 1) % 250 == 0:
+                    # what dropped exceptions kept alive is finalised here (a collection per faulted
+                    # conversion would dominate the enumeration's cost)
+                    gc.collect()
+                    _flag_drift(w, i, viol, stats, [dry] + subs[max(0, s_i - 249) : s_i + 1] + [{"op": "gc"}])
+                    if _fresh(viol, plan):
+                        unfinished = subs[s_i + 1 :] + ops[i + 1 :]
+                        stop = True
+                        break
                 if (s_i + 1) % int(op.get("sweep_every", 2000)) == 0:
                     _do_sweep(w, {"op": "sweep"}, i, log, viol, stats, [])
                     if _fresh(viol, plan):
@@ -614,6 +627,7 @@ def run(plan: dict) -> dict:
             break
         i += 1
     stats["ops_executed"] = stats["ops_executed"] + len(executed)
+    stats["eager_outputs_bitwise_different_from_control"] = _DIGEST_MISMATCH[0]
     return {
         "violations": viol,
         "stats": dict(stats),
@@ -635,12 +649,12 @@ FAULT_REGIONS = ["_lower_and_call", "wrapped", "lower_equation_with_plugin", "lo
 FIX = "fx::c13::"
 ENUM_QUICK = ["flat", "net", "outer"]
 ENUM_THOROUGH = ["flat", "net", "outer", "fn_boundary", "eqx_block", "plain", "kwblock", "flat_f64", "fn_boundary_f64", "cf_nested"]
-PROBE_PIDS = ["flat", "net", "outer", "fn_boundary", "eqx_block", "plain", "jit_cold", "jit_cold2", "kwblock", "cf_nested"]
+PROBE_PIDS = ["flat", "net", "outer", "fn_boundary", "eqx_block", "plain", "jit_cold", "jit_cold2", "kwblock", "cf_nested", "eqx_rope"]
 
 
 def gen_history(seed: int, run: int, registry: list[str], n_ops: int) -> list[dict]:
     r = rng("c13-history", seed, run)
-    fixtures = [FIX + n for n in ["flat", "net", "outer", "fn_boundary", "eqx_block", "plain", "jit_cold", "jit_cold2", "flat_f64", "fn_boundary_f64", "cf_nested", "kwblock", "cf_fn_in_scan"]]
+    fixtures = [FIX + n for n in ["flat", "net", "outer", "fn_boundary", "eqx_block", "plain", "jit_cold", "jit_cold2", "flat_f64", "fn_boundary_f64", "cf_nested", "kwblock", "cf_fn_in_scan", "eqx_rope", "eqx_rope_long"]]
     reg_pool = r.sample(registry, min(len(registry), 6)) if registry else []
     pool = fixtures + reg_pool
     probes = [FIX + n for n in PROBE_PIDS] + reg_pool[:3]
@@ -829,6 +843,7 @@ def main(tier: str) -> int:
                 "conversions_returned": stats.get("conversions_returned", 0),
                 "conversions_raised": stats.get("conversions_raised", 0),
                 "eager_probes": stats.get("eager_probes", 0),
+                "eager_outputs_bitwise_different_from_control": stats.get("eager_outputs_bitwise_different_from_control", 0),
                 "eager_jit_and_eval_shape_probes_of_converted_callable": stats.get("eager_jit_probes", 0),
                 "eager_probes_after_conversion_of_same_program": stats.get("eager_probes_after_conversion_of_same_program", 0),
                 "full_sweeps": stats.get("full_sweeps", 0),
